@@ -369,7 +369,7 @@ func rotationCase(res *mon.Result, idx int, dir string, attempt int) (bracketed 
 	t := mon.NewTable("none", "none", false, dir)
 	key := fmt.Sprintf("c07rot%da%ds%d", idx, attempt, mon.Seed())
 	cmd := fmt.Sprintf("addRoute sendAllMatch %s  %s spool=true flush=%d reconn=%d connbuf=%d iobuf=%d spoolbuf=1000 spoolsyncevery=1000 spoolsyncperiod=200 spoolsleep=0 unspoolsleep=0",
-		key, ep.Addr, r.PickInt([]int{5, 20}), r.PickInt([]int{50, 200}), r.PickInt([]int{1000, 30000}), r.PickInt([]int{256, 4096, 2000000}))
+		key, ep.Addr, r.PickInt([]int{5, 20}), r.PickInt([]int{50, 200, 5000}), r.PickInt([]int{1000, 30000}), r.PickInt([]int{256, 4096, 2000000})) // reconn 5000: longer than two keep-safe periods
 	nA := r.Range(50, 600)
 	nB := r.Range(20, nA)
 	w := map[string]interface{}{"route_cmd": cmd, "keep_safe_period_ms": keepPeriod / time.Millisecond, "lines_before_rotation": nA, "lines_after_rotation": nB}
@@ -401,7 +401,7 @@ func rotationCase(res *mon.Result, idx int, dir string, attempt int) (bracketed 
 		// saw the connection in its accept loop
 		tOn = cs[0].At
 	}
-	if !online || tOn.Sub(tUp) > 1200*time.Millisecond || time.Since(tUp) > keepPeriod-500*time.Millisecond {
+	if !online || tOn.Sub(tUp) > 800*time.Millisecond || time.Since(tUp) > keepPeriod-500*time.Millisecond {
 		lag.Stop()
 		if attempt >= 2 {
 			res.Inconclusive(fmt.Sprintf("rotationCase %d: the destination took %v to come online (third attempt); the first rotation tick cannot be bracketed", idx, tOn.Sub(tUp)))
@@ -433,7 +433,9 @@ func rotationCase(res *mon.Result, idx int, dir string, attempt int) (bracketed 
 	ep.CloseConns() // RST; keeps listening
 	ep.SetMode(mon.Mode{Abortive: true})
 	// the destination looks at the state of its connection when it handles its next event: keep a trickle going
-	for i := 0; i < 20; i++ {
+	// (for longer than the scheduling lag this check tolerates, so that an event certainly follows the moment the
+	// relay's reader goroutine has seen the reset)
+	for i := 0; i < 100; i++ {
 		send(1)
 		time.Sleep(10 * time.Millisecond)
 	}
@@ -491,8 +493,15 @@ func rotationCase(res *mon.Result, idx int, dir string, attempt int) (bracketed 
 		}
 		w["first_missing_ids"] = miss
 		msg := fmt.Sprintf("in-flight lines straddling a keep-safe rotation: %d lines handed off before and %d after the connection's first rotation tick, none read by the endpoint, connection reset %v after the first of them: %d were never replayed, slow drops %d", nA, nB, tKill.Sub(tUp.Add(keepPeriod-400*time.Millisecond)).Round(time.Millisecond), missing, slow)
-		if worst > maxLag || collected == 0 || time.Unix(0, collected).After(tUp.Add(2*keepPeriod-200*time.Millisecond)) {
-			res.Inconclusive(fmt.Sprintf("rotationCase %d: %s - but worst scheduling lag was %v and the redo was collected %v after the route was created (period %v): the time-based retention cannot be assumed", idx, msg, worst, time.Unix(0, collected).Sub(tUp), keepPeriod))
+		// The connection is reset at most 3.0s after it was made and lines keep arriving for a second after that; a
+		// relay whose goroutines are scheduled within maxLag sees the reset and collects the redo well before the
+		// second rotation tick (4s). Only a starved process excuses the loss - a relay that is late on its own does not.
+		w["redo_collected_after_route_creation"] = "never"
+		if collected != 0 {
+			w["redo_collected_after_route_creation"] = time.Unix(0, collected).Sub(tUp).String()
+		}
+		if worst > maxLag {
+			res.Inconclusive(fmt.Sprintf("rotationCase %d: %s - but worst scheduling lag was %v (period %v): the time-based retention cannot be assumed", idx, msg, worst, keepPeriod))
 			return true
 		}
 		rotDecided++
